@@ -55,4 +55,5 @@ def run(chk, replay=None):
             p = chk.replay_file("proof", {"kind": "proof-obligation", "failed": r.get("failed", ""), "log_tail": r["log"][-1500:]})
             chk.violation("proof:C13_takeuntil", p, no_input=True, text=r.get("failed", "")[:300])
     k1.run_unit(_Keyed(chk), stream_proto_tu.TakeUntil())
-    k1.run_unit(_Keyed(chk), stream_proto_tu.TakeUntilASan())
+    if chk.tier != "quick":      # (run_unit builds the driver even for an empty program list)
+        k1.run_unit(_Keyed(chk), stream_proto_tu.TakeUntilASan())
